@@ -79,6 +79,10 @@ CHECKS = {
             "Runtime monitor in virtual time where the harness decides when every ack, nack, relayed ack and TCP-fallback reply arrives: prober oracle (answered <=> an ack with the probe's own number before the awareness-scaled deadline <=> not suspected), exact health-score accounting read at the instant each probe ends (-1 / +missed nacks / +1, clamped, unchanged when the ping could not even be sent), relay oracle on 60 indirect-ping requests per case (one forwarded ping with a non-pending number; one relayed ack under the requester's number iff the target answered within the probe timeout; one nack iff requested and no timely ack), handler cleanup after all deadlines.",
             "Scripted arrivals stay >= 5 ms from every deadline. Trusts synctest timing, the wire codec, the accessor for pending-probe records.",
             "scripted-arrival oracle on probe outcome, relay traffic and health accounting (virtual time)", "DESIGN.md §3 C19"),
+    "C09": ("E1-simnet (cut-at-byte streams) + E2-rig (scripted peer)", "fault_enumeration",
+            "Fault enumeration of the join exchange: for each encryption x compression x label configuration and both directions the stream is cut after every byte offset (hard reset and black hole; strided in quick, every offset in thorough) and the digests of both real nodes, Join's result and duration, and the open connection ends are judged (incomplete inbound => unchanged; complete inbound => all or nothing). Plus runtime monitors for mutual listing at the instant Join returns (with the joiner's own filters), merge-delegate veto in both roles, random version matrices against an independent compatibility predicate, duplicate/self entries, and the hearsay rule (reported dead/suspect => listed, suspected, removed only by the receiver's own timer at >= the minimum timeout, also when the report is repeated while the suspicion is pending).",
+            "Cut completeness is judged by the bytes really written on that connection (compressed state size varies with table order). Trusts the simulated stream (ordered, cut or reset at a byte offset), the wire codec.",
+            "cut-at-every-byte enumeration with digest-equality oracle + exchange/hearsay monitors", "DESIGN.md §3 C09"),
 }
 
 NOT_YET = "check not built yet in this round (design in DESIGN.md §3); not claimed until its monitor runs clean on the unchanged tree"
@@ -115,7 +119,7 @@ def main():
         },
         "engines": [
             {"name": "E3-hostile-input", "path": "harness/hostile.go", "serves_properties": ["C13", "C14"], "kind_free_text": "victim node + genuine corpus from the oracle-side codec + deterministic mutators; each input journalled before injection, batches in child processes"},
-            {"name": "E1-simnet", "path": "harness/simnet.go", "serves_properties": ["C02", "C03", "C04", "C05", "C07", "C08", "C12", "C15", "C17"], "kind_free_text": "real Memberlist instances on an in-memory transport inside a testing/synctest bubble (virtual time), with wire tap, fault scripts and fake peers"},
+            {"name": "E1-simnet", "path": "harness/simnet.go", "serves_properties": ["C02", "C03", "C04", "C05", "C07", "C08", "C09", "C12", "C15", "C17"], "kind_free_text": "real Memberlist instances on an in-memory transport inside a testing/synctest bubble (virtual time), with wire tap, fault scripts and fake peers"},
             {"name": "E2-model-lockstep", "path": "harness/", "serves_properties": ["C01", "C02", "C06", "C08", "C10", "C11", "C16", "C17", "C18", "C19"], "kind_free_text": "PRNG operation sequences against one object with an executable reference model evaluated in lock-step"},
         ],
         "checks": checks,
